@@ -1525,7 +1525,7 @@ fn irs_op(w: &mut World, op: &IrsOp, ctx: &mut Ctx, what: &str) -> R {
 }
 
 pub fn property() -> Property {
-    Property {
+    let mut p = Property {
         id: "C15",
         rule: "case = key seed, initial required topics (universe {1,2,3,7}) and trusted issuers (3 claim-issuer contracts, one key per scheme Ed25519/Secp256k1/Secp256r1), \
                a registry history (add/remove topic, add/remove issuer, update issuer topics; <= 15 registry operations in total), an initial key-allowance mask, and a history of <= 22 (thorough 40) \
@@ -1535,7 +1535,11 @@ pub fn property() -> Property {
                remove/update/remove-topic), Cover (genuine claims for every uncovered required topic), raw registry/key/IRS operations, cross probes. After every step every held record is shown to its issuer and verify_identity runs for 3 accounts (one unregistered). \
                non-trivial = some verification with >= 2 required topics AND a topic with >= 2 trusted issuers that both hold a record for the identity, one valid and one invalid, AND >= 1 defect class in the case; \
                distinct = distinct serialised case",
-        subs: vec![gen_sub::<Case>("identity", 800, 12000, strategy, run)],
+        subs: vec![
+            gen_sub::<Case>("identity", 800, 12000, strategy, run),
+            // the documented claim-data expiration codec (encode / decode / is_claim_expired) against its stated layout
+            gen_sub::<super::c15b::Case>("claim-data-codec", 4000, 60000, super::c15b::strategy, super::c15b::run),
+        ],
         // <= 1/10 of the minimum measured over quick seeds 0..3 / of one thorough run
         floors: vec![
             ("nontrivial", 20, 400),
@@ -1580,5 +1584,7 @@ pub fn property() -> Property {
             "records that add_claim refuses are written into the identity's storage through a mirror of the (private) ClaimsStorageKey enum and read back through get_claim/get_claim_ids_by_topic",
             "authorization of the admin entry points is out of scope (mock_all_auths for them; verify_identity / is_claim_valid / add_claim run with no authorization entries)",
         ],
-    }
+    };
+    p.floors.extend(super::c15b::FLOORS.iter().cloned());
+    p
 }
